@@ -5,6 +5,7 @@ Configuring and executing emulator instances for guppy programs.
 from __future__ import annotations
 
 from collections.abc import Iterator
+from copy import copy
 from dataclasses import dataclass, field, replace
 from typing import TYPE_CHECKING, Any, cast
 
@@ -174,11 +175,12 @@ class EmulatorInstance:
     def with_seed(self, value: int | None) -> Self:
         """Set the random seed for the emulator instance.
         Defaults to None."""
-        new_options = replace(self._options, _seed=value)
         # TODO flaky stateful, remove when selene simplifies
-        new_options._simulator.random_seed = value
-        out = replace(self, _options=new_options)
-        return out
+        # Seed a copy of the simulator: the original object is shared with the
+        # instances this one was derived from (and with the caller of `with_simulator`).
+        simulator = copy(self._options._simulator)
+        simulator.random_seed = value
+        return self._with_option(_seed=value, _simulator=simulator)
 
     def with_shot_offset(self, value: int) -> Self:
         """Set the offset for the shot numbers, shot counts will begin at this offset.
